@@ -27,6 +27,15 @@ def main(argv=None):
     except Exception as e:
         traceback.print_exc()
         ck.broken(pid + '.internal', 'internal-error', '', '%s: %s' % (type(e).__name__, e))
+    try:
+        from . import sym as _sym, cast as _cast
+        if _sym.LOOKED_THROUGH:
+            ck.notes.append('helpers newer than ufwsa/known_functions.json, looked through at their call sites: %s' % ', '.join(sorted(_sym.LOOKED_THROUGH)))
+        ren = sorted(set(fn for u_ in _cast._cache.values() for fn in u_.renamed))
+        if ren:
+            ck.notes.append('parameters / locals given their confirmed names back in: %s' % ', '.join(ren))
+    except Exception:      # noqa: BLE001 - informational only
+        pass
     if a.tier == 'thorough' and not os.environ.get('UFWSA_NO_CORPUS'):
         from . import corpus
         res = corpus.run_all([pid])
@@ -34,6 +43,8 @@ def main(argv=None):
         for r in res:
             if r['outcome'] in ('caught', 'silent'):
                 ck.holds(pid + '.corpus', 'corpus:' + r['id'], r['patch'], '%s (%s)' % (r['outcome'], r.get('note', '')))
+            elif r['outcome'] == 'unreadable':
+                ck.notes.append('rewrite %s: a form the rules do not read - analysis-broken on the rewritten tree, as recorded (no VIOLATION)' % r['id'])
             elif r['outcome'] == 'patch-does-not-apply':
                 ck.notes.append('corpus entry %s no longer applies' % r['id'])
             else:
